@@ -15,8 +15,10 @@ MIN_CASES = {"quick": 5000, "thorough": 30000}
 def run(ctx):
     binary = D.build_harness(ctx, "c15")
     D.stage_spec(ctx, params={"Seed": ctx.seed, "ObsFile": ""})
+    if getattr(ctx, "replay", None):
+        return replay(ctx, binary)
     # role 1 + 2: the laws of FPLiterals on every case of the pools; one case per explored state
-    mc = D.model_check(ctx, "C15_MC", "C15_mc_%s.cfg" % ctx.tier, timeout=600, workers=4)
+    mc = D.model_check(ctx, "C15_MC", "C15_mc_%s.cfg" % ctx.tier, timeout=900, workers=4)
     cases = mc.records
     per_family = {f: sum(1 for c in cases if c["kind"] == f) for f in FAMILIES}
     D.log("  cases per family: %s" % per_family)
@@ -88,3 +90,22 @@ def corrupt_probe(ctx, obs):
     if not bad or bad[0]["id"] != victim["id"]:
         raise D.Inconclusive("corrupted-record probe: judge did not reject the corrupted record")
     ctx.extra["corrupted_record_rejected"] = True
+
+
+def replay(ctx, binary):
+    """bin/check C15 --replay <file>: re-execute the single case of a replay file and re-judge it."""
+    import json
+    rec = json.load(open(ctx.replay))
+    case = rec.get("observation", {}).get("cs")
+    if case is None:
+        raise D.Inconclusive("replay file has no observation.cs")
+    D.write_ndjson(ctx.path("cases.ndjson"), [case])
+    D.run_harness(ctx, binary, ["run", ctx.path("cases.ndjson"), ctx.path("obs.ndjson")])
+    obs = D.read_ndjson(ctx.path("obs.ndjson"))
+    verdicts = D.judge(ctx, "C15_Judge", "C15_judge.cfg", ctx.path("obs.ndjson"), params={"Seed": ctx.seed}, workers=1)
+    D.check_complete(verdicts, obs)
+    for v in verdicts:
+        print("REPLAY %s: %s %s" % (v["id"], "ok" if v["ok"] else "REJECTED", v.get("sig", "")))
+    known = D.load_known(ctx.prop)
+    new = [v for v in verdicts if not v["ok"] and D.match_known(known, v.get("sig", "")) is None]
+    return 1 if new else 0
